@@ -897,7 +897,6 @@ func classify(c *cfg, t *dtygen.Ty, v0 *dtygen.Val, in string) []string {
 		}
 	}
 	fold, dup, f32, intkey, qesc, b64, qnum, u32key, hasNull := false, false, false, false, false, false, false, false, false
-	qstrws := false
 	floatinf, hasArr, numstr, qbool, arrNull, f32edge, neg0 := false, false, false, false, false, false, false
 	root.Walk(func(n *dtygen.JNode) {
 		switch n.K {
@@ -1004,15 +1003,6 @@ func classify(c *cfg, t *dtygen.Ty, v0 *dtygen.Val, in string) []string {
 			if f.quotedStr && (strings.Contains(n.Raw, `"`) || strings.Contains(n.Raw, `\`) || strings.Contains(n.Raw, `\`)) {
 				qesc = true
 			}
-			if f.quotedStr {
-				// JSON whitespace around the inner literal of a `,string` string field (or around null)
-				if u, ok := dtygen.Unquote(n.Raw); ok {
-					t := strings.Trim(u, " \t\n\r")
-					if t != u && (t == "null" || (len(t) >= 2 && t[0] == '"' && t[len(t)-1] == '"')) {
-						qstrws = true
-					}
-				}
-			}
 		}
 	})
 	if fold {
@@ -1071,9 +1061,6 @@ func classify(c *cfg, t *dtygen.Ty, v0 *dtygen.Val, in string) []string {
 	}
 	if qesc {
 		tags = append(tags, "qesc")
-	}
-	if qstrws {
-		tags = append(tags, "qstrws")
 	}
 	if b64 {
 		tags = append(tags, "b64pad")
